@@ -47,6 +47,36 @@ def _now_name(fn: ast.FunctionDef) -> str:
     return "sim_time" if "sim_time" in params else "current_time"
 
 
+def _explicit_extreme_loop(gf: ast.FunctionDef, rets, fn_name: str) -> bool:
+    """best = None; for s in self._strategies: if best is None or s.runtime < best.runtime: best = s; return best  (`>` for max):
+    the comparisons min()/max() make, first of ties kept."""
+    loops = [l for l in ast.walk(gf) if isinstance(l, ast.For)]
+    if len(loops) != 1 or norm(loops[0].iter) != "self._strategies" or not isinstance(loops[0].target, ast.Name) or loops[0].orelse:
+        return False
+    lp = loops[0]
+    sv = lp.target.id
+    if len(lp.body) != 1 or not isinstance(lp.body[0], ast.If) or lp.body[0].orelse:
+        return False
+    iff = lp.body[0]
+    if len(iff.body) != 1 or not isinstance(iff.body[0], ast.Assign) or not isinstance(iff.body[0].targets[0], ast.Name) or norm(iff.body[0].value) != sv:
+        return False
+    best = iff.body[0].targets[0].id
+    t = iff.test
+    if not (isinstance(t, ast.BoolOp) and isinstance(t.op, ast.Or) and len(t.values) == 2 and norm(t.values[0]) == f"{best} is None"):
+        return False
+    c = t.values[1]
+    if not (isinstance(c, ast.Compare) and len(c.ops) == 1):
+        return False
+    l, r, op = norm(c.left), norm(c.comparators[0]), type(c.ops[0])
+    want_lt = fn_name == "min"
+    strict = (l == f"{sv}.runtime" and r == f"{best}.runtime" and op is (ast.Lt if want_lt else ast.Gt)) or \
+             (l == f"{best}.runtime" and r == f"{sv}.runtime" and op is (ast.Gt if want_lt else ast.Lt))
+    inits = [a for a in gf.body if isinstance(a, ast.Assign) and isinstance(a.targets[0], ast.Name) and a.targets[0].id == best
+             and isinstance(a.value, ast.Constant) and a.value.value is None]
+    return strict and bool(inits) and all(norm(x.value) == best for x in rets) \
+        and not any(isinstance(x, (ast.Break, ast.Continue)) for x in ast.walk(lp))
+
+
 def strategy_extremes(ctx: Context, rule: str) -> None:
     """get_fastest_strategy / get_slowest_strategy compute min / max by runtime over the CURRENT strategy set on every call."""
     if not rule.startswith("C12"):
@@ -58,6 +88,8 @@ def strategy_extremes(ctx: Context, rule: str) -> None:
         gf = method(es, name)
         rets = [r for r in ast.walk(gf) if isinstance(r, ast.Return) and r.value is not None and not (isinstance(r.value, ast.Constant) and r.value.value is None)]
         ok = bool(rets) and all(isinstance(r.value, ast.Call) and call_name(r.value) == fn_name and "runtime" in norm(r.value) and "self._strategies" in norm(r.value) for r in rets)
+        if not ok:
+            ok = _explicit_extreme_loop(gf, rets, fn_name)
         ctx.check(ok, rule, f"ExecutionStrategies.{name}|{fn_name} by runtime, computed per call", loc(gf), f"{fn_name}(strategies, key=runtime)",
                   f"{name} returns {[norm(r.value)[:50] for r in rets]}: not the {fn_name}imum-runtime strategy of the current set (a cached value goes "
                   "stale when strategies are added later)")
